@@ -140,7 +140,19 @@ class Recorder:
                 v = float(c.violation(values))
                 if not math.isfinite(v) or not math.isfinite(float(c.evaluate(values))):
                     return 'viol_con'          # the constraint function is undefined at the point: not satisfied
-                scale = 1.0 + abs(float(c.evaluate(values)))
+                e0 = float(c.evaluate(values))
+                scale = 1.0 + abs(e0)
+                if v > self.FTOL * scale:
+                    # "lhs - rhs" is small at an active constraint whatever the size of lhs and rhs: the tolerance must
+                    # be relative to the magnitude of the terms (budget rows of 1e12), measured by scaling the point
+                    try:
+                        e1 = float(c.evaluate({k: x * (1.0 + 1e-7) for k, x in values.items()}))
+                        mag = abs(e1 - e0) / 1e-7
+                    except Exception:
+                        mag = 0.0
+                    if not math.isfinite(mag):
+                        mag = 0.0
+                    scale += mag
                 if v > self.FTOL * scale:
                     vc = max(vc, v)
             if vc > 0:
